@@ -332,13 +332,16 @@ CONFIGS = {
          "pairs": [{"pre": {"sasl": ["PLAIN", "LOGIN"], "tls": True}, "post": {"sasl": ["LOGIN"], "tls": False}}]},
     ],
     ("C10", "thorough"): [
-        {"maxcalls": 3, "prefs": ["", "LOGIN"], "tls": [True, False], "reactions": ["OK", "NO", "BYE", "silence", "garbage"],
+        # sizes: (#connect scenarios + #op scenarios) ** maxcalls histories; kept below ~1 M each
+        {"maxcalls": 2, "prefs": ["", "LOGIN"], "tls": [True, False], "reactions": ["OK", "NO", "BYE", "silence", "garbage"],
          "ops": ["LISTSCRIPTS", "PUTSCRIPT"],
          "pairs": [{"pre": {"sasl": ["LOGIN"], "tls": True}, "post": {"sasl": ["PLAIN"], "tls": False}},
                    {"pre": {"sasl": ["PLAIN"], "tls": False}, "post": {"sasl": ["PLAIN"], "tls": False}},
                    {"pre": {"sasl": ABSENT, "tls": True}, "post": {"sasl": ["PLAIN", "LOGIN"], "tls": False}},
                    {"pre": {"sasl": ["PLAIN"], "tls": True}, "post": {"sasl": ABSENT, "tls": False}}]},
-        {"maxcalls": 4, "prefs": [""], "tls": [True, False], "reactions": ["OK", "NO"], "ops": ["LISTSCRIPTS"],
+        {"maxcalls": 3, "prefs": [""], "tls": [True, False], "reactions": ["OK", "NO", "BYE"], "ops": ["LISTSCRIPTS", "PUTSCRIPT"],
+         "pairs": [{"pre": {"sasl": ["PLAIN", "LOGIN"], "tls": True}, "post": {"sasl": ["LOGIN"], "tls": False}}]},
+        {"maxcalls": 4, "prefs": [""], "tls": [True], "reactions": ["OK", "NO"], "ops": ["LISTSCRIPTS"],
          "pairs": [{"pre": {"sasl": ["PLAIN", "LOGIN"], "tls": True}, "post": {"sasl": ["LOGIN"], "tls": False}}]},
     ],
 }
